@@ -3572,10 +3572,14 @@ async def _helper_rename_folder(mbox: Mailbox, new_name: str) -> None:
 
     # Get all the mailboxes we have to rename (this mbox may have children)
     #
+    # NOTE: The children are the names that begin with `old_name/`, compared
+    #       exactly: LIKE ignores case and treats `_` and `%` in the name as
+    #       wildcards, which also finds the children of other mailboxes.
+    #
     to_change = {}
     async for mbox_old_name, mbox_id in srvr.db.query(
-        "SELECT name,id FROM mailboxes WHERE name=? OR name LIKE ?",
-        (old_name, f"{old_name}/%"),
+        "SELECT name,id FROM mailboxes WHERE name=? OR substr(name,1,?)=?",
+        (old_name, len(old_name) + 1, f"{old_name}/"),
     ):
         mbox_new_name = new_name + mbox_old_name[len(old_name) :]
         to_change[mbox_old_name] = (mbox_new_name, mbox_id)
